@@ -257,7 +257,7 @@ func monC13(c *child.Ctx, replay json.RawMessage) {
 		nontriv = append(nontriv, nt)
 	}
 	faultKinds := []string{"eof", "timeout", "deadline"}
-	nStreams := c.Share(c.Pick(16, 800))
+	nStreams := c.Share(c.Pick(48, 1600))
 	for si := 0; si < nStreams; si++ {
 		s := gen.CleanStream(r, gen.CleanOpts{MinFrames: 2, MaxFrames: 4, SmallFrames: true, TruncTail: si%3 == 0})
 		if si%4 == 3 {
@@ -323,12 +323,14 @@ func monC13(c *child.Ctx, replay json.RawMessage) {
 			switch (pos/stepStop + si) % 3 {
 			case 0:
 				f := faultKinds[r.Intn(3)]
+				c.Count("stop_scripts_zero_tolerance", 1)
 				add(faultCase{Steps: mk(pos, []string{f}), TimeoutMs: 0, WaitMs: 0, StopAfter: pos, WantErrKind: f, Note: fmt.Sprintf("zero tolerance, %s after byte %d", f, pos)}, inside[pos])
 			case 1:
 				tm := uint(0)
 				if r.Chance(1, 2) {
 					tm = tolMs
 				}
+				c.Count("stop_scripts_other_error", 1)
 				add(faultCase{Steps: mk(pos, []string{"other"}), TimeoutMs: tm, WaitMs: 1, StopAfter: pos, WantErrKind: "other", Note: fmt.Sprintf("other read error after byte %d", pos)}, inside[pos])
 			default:
 				// silence beyond the tolerance: faults keep coming until the handler gives up
@@ -336,6 +338,7 @@ func monC13(c *child.Ctx, replay json.RawMessage) {
 				for i := 0; i < 12; i++ {
 					fl = append(fl, faultKinds[r.Intn(3)])
 				}
+				c.Count("stop_scripts_silence_beyond_tolerance", 1)
 				add(faultCase{Steps: mk(pos, fl), TimeoutMs: 40, WaitMs: 1, StopAfter: pos, WantErrKind: "eof", Note: fmt.Sprintf("silent beyond the tolerance after byte %d", pos)}, inside[pos])
 			}
 		}
